@@ -33,7 +33,7 @@ def cases(tier, seed):
         byn.setdefault(spec[2].get("n", spec[2].get("name")), []).append(spec)
     for n, specs in byn.items():
         sel = [s_ for s_ in specs if s_[2].get("form", "g") == "g"]
-        yield f"C03|cyclic|n={n}", {"specs": specs + list(reversed(sel)), "tier": tier}
+        yield f"C03|cyclic|n={n}", {"specs": specs, "then_fresh": list(reversed(sel)), "tier": tier}
     if tier == "quick":
         # the larger fields are cheap for this property (one encoder + one distance computation per configuration): always include them
         extra = [s for s in C.bch("thorough", seed) if s[2].get("mu", 0) in (5, 6) or "(31," in s[1] or "(63," in s[1]]
@@ -61,6 +61,11 @@ def advertised(enc):
 def execute(p, res):
     for spec in p["specs"]:
         check(spec, p["tier"], res)
+    if p.get("then_fresh"):
+        from kmc.engine import fresh_kaira
+        fresh_kaira()
+        for spec in p["then_fresh"]:
+            check(spec, p["tier"], res)
 
 
 def check(spec, tier, res):
